@@ -74,7 +74,8 @@ fn compare(suite: &str, inp: &str, text: &str, r: &RefStats) {
     check(got.len() == want.len(), suite, "C15:report_has_exactly_the_expected_figures", inp, &format!("{} figures", got.len()), &format!("{} figures", want.len()));
 }
 /// C15 (bounded: 2 random histories of 12 blocks with ties and non-monotonic timestamps; one history placed at the
-/// 33rd subsidy era; a mean over values summing beyond 2^32)
+/// 33rd subsidy era; a hand-made history with a 9-byte-CompactSize transaction as size record and coinbase outputs of 2^63 and
+/// more units; a mean over values summing beyond 2^32)
 #[test]
 fn c15_figures_match_recomputation() {
     let suite = "c15_figures_match_recomputation";
